@@ -43,19 +43,24 @@ const (
 )
 
 // c14N: the unexported state of Merge / Pool, identified by type and role (not by name).
-var c14N struct {
-	lock, committed, items, pending, status, pendingStatus string // Merge
-	main, err                                              string // the status message
-	poolLock, poolItems, poolItem, refCount                string // Pool
+// items/pending/status/pendingStatus are access paths relative to the Merge
+// receiver ("items" or "current.items"); runB/pendB are the two batch
+// sub-objects when the pairs live in a nested struct ("" otherwise).
+type c14Names struct {
+	lock, committed                         string
+	items, pending, status, pendingStatus   string
+	runB, pendB                             string
+	mergeFields                             []string    // guarded direct fields of Merge
+	stateFields                             [][2]string // (type, field) pairs holding items/status of a batch
+	main, err                               string      // the status message
+	poolLock, poolItems, poolItem, refCount string      // Pool
 }
+
+var c14N c14Names
 
 // c14ResolveNames fills c14N; returns what could not be identified.
 func c14ResolveNames(c *Ctx) string {
-	c14N = struct {
-		lock, committed, items, pending, status, pendingStatus string
-		main, err                                              string
-		poolLock, poolItems, poolItem, refCount                string
-	}{}
+	c14N = c14Names{}
 	mt := c.P.Named(c14PkgSync, "Merge")
 	if mt == nil {
 		return "~/internal/syncutil.Merge"
@@ -68,8 +73,22 @@ func c14ResolveNames(c *Ctx) string {
 		n, ok := t.(*types.Named)
 		return ok && n.Obj().Pkg() != nil && n.Obj().Pkg().Path() == "sync" && (n.Obj().Name() == "Mutex" || n.Obj().Name() == "RWMutex")
 	}
-	var slices, chans []string
-	var msgT *types.Named
+	// slice and channel members of a struct
+	members := func(st *types.Struct) (slices, chans []string, msg *types.Named) {
+		for i := 0; i < st.NumFields(); i++ {
+			f := st.Field(i)
+			switch t := f.Type().Underlying().(type) {
+			case *types.Slice:
+				slices = append(slices, f.Name())
+			case *types.Chan:
+				chans = append(chans, f.Name())
+				msg, _ = t.Elem().(*types.Named)
+			}
+		}
+		return
+	}
+	var batches []string
+	var batchT *types.Named
 	for i := 0; i < st.NumFields(); i++ {
 		f := st.Field(i)
 		switch t := f.Type().Underlying().(type) {
@@ -80,21 +99,23 @@ func c14ResolveNames(c *Ctx) string {
 				}
 				c14N.committed = f.Name()
 			}
-		case *types.Slice:
-			slices = append(slices, f.Name())
-		case *types.Chan:
-			chans = append(chans, f.Name())
-			msgT, _ = t.Elem().(*types.Named)
 		case *types.Struct:
 			if isMutex(f.Type()) {
 				c14N.lock = f.Name()
+				continue
+			}
+			if n, isN := f.Type().(*types.Named); isN {
+				if sl, ch, _ := members(t); len(sl) == 1 && len(ch) == 1 {
+					batches = append(batches, f.Name())
+					batchT = n
+				}
 			}
 		}
 	}
-	if c14N.lock == "" || c14N.committed == "" || len(slices) != 2 || len(chans) != 2 || msgT == nil {
-		return "Merge: expected one mutex, one bool, two slices and two status channels"
+	if c14N.lock == "" || c14N.committed == "" {
+		return "Merge: expected one mutex and one bool (window closed) field"
 	}
-	// which of each pair is the running batch: the one the other is promoted into (dst = load of src)
+	// which of a pair is the running one: the destination of the promotion `x = <load of the other>`
 	promoted := func(pair []string) (dst, src string) {
 		for _, f := range c.P.FuncsOfPkg(c14PkgSync) {
 			for _, d := range pair {
@@ -109,9 +130,29 @@ func c14ResolveNames(c *Ctx) string {
 		}
 		return
 	}
-	c14N.items, c14N.pending = promoted(slices)
-	c14N.status, c14N.pendingStatus = promoted(chans)
-	if c14N.items == "" || c14N.status == "" {
+	slices, chans, msgT := members(st)
+	switch {
+	case len(slices) == 2 && len(chans) == 2 && len(batches) == 0:
+		c14N.items, c14N.pending = promoted(slices)
+		c14N.status, c14N.pendingStatus = promoted(chans)
+		c14N.mergeFields = []string{c14N.committed, c14N.items, c14N.status, c14N.pending, c14N.pendingStatus}
+		c14N.stateFields = [][2]string{{c14TMerge, c14N.items}, {c14TMerge, c14N.status}}
+	case len(slices) == 0 && len(chans) == 0 && len(batches) == 2:
+		c14N.runB, c14N.pendB = promoted(batches)
+		bs := batchT.Underlying().(*types.Struct)
+		sl, ch, mt2 := members(bs)
+		msgT = mt2
+		if c14N.runB != "" {
+			c14N.items, c14N.pending = c14N.runB+"."+sl[0], c14N.pendB+"."+sl[0]
+			c14N.status, c14N.pendingStatus = c14N.runB+"."+ch[0], c14N.pendB+"."+ch[0]
+		}
+		bt := short(batchT.Obj().Pkg().Path() + "." + batchT.Obj().Name())
+		c14N.mergeFields = []string{c14N.committed, c14N.runB, c14N.pendB}
+		c14N.stateFields = [][2]string{{bt, sl[0]}, {bt, ch[0]}, {c14TMerge, c14N.runB}}
+	default:
+		return "Merge: expected two slices and two status channels, or two batch sub-objects holding one of each"
+	}
+	if c14N.items == "" || c14N.status == "" || msgT == nil {
 		return "Merge: cannot tell the running batch from the pending one (no promotion `x = pending` found)"
 	}
 	if ms, ok := msgT.Underlying().(*types.Struct); ok {
@@ -581,14 +622,21 @@ func c14R4(c *Ctx) {
 				case isCall && (name == "sync/atomic.CompareAndSwapInt32" || name == "(*sync/atomic.Int32).CompareAndSwap") && call.Call.Args[0] == ssa.Value(fa):
 					nCAS++
 					idx["cas"]++
-					old, okOld := constInt(call.Call.Args[1])
-					okNew := true
-					for _, nv := range Roots(call.Call.Args[2]) {
+					// old/new resolved through helpers of the module (e.g. a bool -> state conversion)
+					vw := c14NewView(f, 3, func(g *ssa.Function) bool { return inModule(g) })
+					okOld := len(vw.Leaves(call.Call.Args[1])) > 0
+					for _, ov := range vw.Leaves(call.Call.Args[1]) {
+						if n, isK := constInt(ov); !isK || n != unknown {
+							okOld = false
+						}
+					}
+					okNew := len(vw.Leaves(call.Call.Args[2])) > 0
+					for _, nv := range vw.Leaves(call.Call.Args[2]) {
 						if n, isK := constInt(nv); !isK || n == unknown {
 							okNew = false
 						}
 					}
-					okCAS := okOld && old == unknown && okNew
+					okCAS := okOld && okNew
 					c.Check(R, fmt.Sprintf("%s|cas-from-unknown#%d", FnName(f), idx["cas"]), in.Pos(), okCAS,
 						ifelse(okCAS, "the only write is CompareAndSwap(unknown -> supported|unsupported)", "the capability can be swapped from a known state (or back to unknown): a repository detected as lacking the Referrers API flips while index updates are in flight, and half of the referrers are recorded nowhere"))
 				default:
